@@ -1067,6 +1067,11 @@ class Document:
         before = paste_mode == PasteMode.VI_BEFORE
         after = paste_mode == PasteMode.VI_AFTER
 
+        # Nothing to paste for a zero or negative repetition argument. (The
+        # cursor positions computed below assume that something is inserted.)
+        if count <= 0:
+            return self
+
         if data.type == SelectionType.CHARACTERS:
             if after:
                 new_text = (
